@@ -107,3 +107,12 @@ Fixpoint olocate_from (n : nat) (t : otable) (i key : Z) : option Z :=
   | O => None
   | S m => if Gen_One.IsFull (ost (t i)) && (oky (t i) =? key) then Some i else olocate_from m t (i + 1) key
   end.
+
+Fixpoint ogrow_chain (hash : Z -> Z) (t : otable) (L : Z) (Ls : list Z) : outcome (otable * Z) :=
+  match Ls with
+  | [] => Ok (t, L)
+  | newL :: r => match omigrate hash t L newL with
+                 | Ok (_, tnew) => ogrow_chain hash tnew newL r
+                 | Stuck => Stuck | Fuel => Fuel | Exn => Exn
+                 end
+  end.
